@@ -317,6 +317,9 @@ class USBStreamOutEndpoint(Elaboratable):
         # Stores whether we're in the middle of a transfer.
         transfer_active = Signal()
 
+        # Stores whether the packet received in the current transaction filled a whole max-size packet.
+        packet_full = Signal()
+
         #
         # Receiver logic.
         #
@@ -402,12 +405,14 @@ class USBStreamOutEndpoint(Elaboratable):
         ]
 
         # Count bytes in packet.
+        packet_ends_full = fifo.write_en & rx_last & full_packet
         with m.If(fifo.write_en):
             m.d.usb += rx_cnt.eq(rx_cnt + 1)
 
-            # Set the transfer active flag depending on whether this is a full packet.
+            # Remember whether this packet was a full one; this decides whether the transfer continues,
+            # but only once the packet has actually been accepted (see below).
             with m.If(rx_last):
-                m.d.usb += transfer_active.eq(full_packet)
+                m.d.usb += packet_full.eq(full_packet)
 
         # We'll set the overflow flag if we're receiving data we don't have room for.
         with m.If(data_is_lost):
@@ -420,11 +425,18 @@ class USBStreamOutEndpoint(Elaboratable):
         # The overflow flag must survive until we've responded to the packet -- at full speed the response is
         # requested well after the packet has been committed/discarded -- so it's cleared by the next token.
         with m.If(tokenizer.new_token):
-            m.d.usb += overflow.eq(0)
+            m.d.usb += [
+                overflow    .eq(0),
+                packet_full .eq(0)
+            ]
 
         # We'll toggle our DATA PID each time we issue an ACK to the host [USB 2.0: 8.6.2].
         with m.If(data_response_requested & data_accepted):
             m.d.usb += expected_data_toggle.eq(~expected_data_toggle)
+
+            # Only an accepted packet moves the transfer along: a full packet continues the transfer;
+            # a short (or zero-length) packet ends it. Corrupted, NAK'd and repeated packets change nothing.
+            m.d.usb += transfer_active.eq(packet_full | packet_ends_full)
 
         # If there has been a ClearFeature(ENDPOINT_HALT) request address to this endpoint...
         clear_endpoint_halt = \
